@@ -4,6 +4,15 @@ property is anchored in (used to measure false alarms of the checks).  Only the 
 import json, sys
 pid, wt = sys.argv[1], sys.argv[2]
 n = sys.argv[3] if len(sys.argv) > 3 else "3"
+start = int(sys.argv[4]) if len(sys.argv) > 4 else 1
+import os, glob
+taken = []
+for d in sorted(glob.glob(f'/verif/neutral/{pid}_n*')):
+    mp = os.path.join(d, 'meta.json')
+    if os.path.exists(mp) and start > 1:
+        m = json.load(open(mp))
+        taken.append(f"  - {m.get('file', '?')} / {m.get('function', '?')}: {m.get('summary', '')[:220]}")
+taken_txt = ("\n\nOther people have ALREADY delivered the following refactorings for this property; yours must be DIFFERENT (other functions when possible, and other KINDS of refactoring - be inventive: e.g. introduce a small dataclass/namedtuple for a tuple, replace index arithmetic by zip/enumerate, convert a while loop to a for loop or the reverse, merge or split loops that are independent, replace a flag variable by for/else or early exit, move a nested function to module level, use dict.setdefault/defaultdict/collections helpers, any()/all()/sum()/next() instead of explicit loops, chained comparison, De Morgan rewrites, walrus operator, tuple unpacking vs indexing, try/except vs explicit test when equivalent, str.join vs concatenation, sorted(key=) variants, reorder independent branches of an if/elif chain, etc.):\n" + "\n".join(taken)) if taken else ""
 prop = next(json.loads(l) for l in open('/verif/properties.jsonl') if json.loads(l)['id'] == pid)
 print(f"""You are helping to evaluate a verification effort for the Python library pyDCOP (distributed constraint optimisation: algorithms such as DPOP/MGM/MaxSum on a threaded message-passing agent runtime).
 
@@ -18,10 +27,10 @@ YOUR TASK: produce {n} DIFFERENT, independent, BEHAVIOUR-PRESERVING source chang
   (b) still compile/import and keep every test that passes on the clean tree passing. On the clean tree the suite gives roughly "73 failed, 793 passed, 25 skipped" in ~70 s (the failures are pre-existing). Measure it:
         cd {wt} && unshare -rn sh -c 'ip link set lo up; PYTHONPATH={wt} /venv/bin/python -m pytest -q -p no:cacheprovider --timeout=900 --continue-on-collection-errors --junitxml=/tmp/wt/{pid}_run.xml' 2>&1 | tail -3
       once on the clean tree and once per change, compare the sets of passed test ids from the junit xml. pytest sometimes hangs at interpreter exit after the xml is fully written: if a run does not return within ~3 minutes after the xml stopped growing, kill it and use the xml. A few timing/TCP tests can flake: re-run a differing test alone before concluding.
-  (c) be REALISTIC maintenance work of moderate size (roughly 5-40 changed lines), the kind a maintainer does while cleaning up: e.g. rename local variables / loop variables / private helper parameters; extract a sub-expression into a well-named local, or inline a local; extract a few statements into a private helper function/method (or inline a tiny helper); turn a loop into an equivalent comprehension or the reverse; replace an if/else by an early return (guard clause) or the reverse; reorder statements that are independent of each other; replace `len(x) == 0` / `x == []` by `not x` when x is provably a list; `d[k] if k in d else v` by `d.get(k, v)` when equivalent; `.format` by f-string; split a long condition into named booleans; add or remove log/debug lines, comments, docstrings, type hints; replace a chain of `elif` on constants by a dict dispatch when equivalent; use `enumerate`/`zip` instead of index arithmetic; hoist a loop-invariant computation out of a loop when that is provably safe; etc. Use a DIFFERENT kind of refactoring for each of the {n} changes, and touch different functions when possible. Do NOT just reformat whitespace.
+  (c) be REALISTIC maintenance work of moderate size (roughly 5-40 changed lines), the kind a maintainer does while cleaning up: e.g. rename local variables / loop variables / private helper parameters; extract a sub-expression into a well-named local, or inline a local; extract a few statements into a private helper function/method (or inline a tiny helper); turn a loop into an equivalent comprehension or the reverse; replace an if/else by an early return (guard clause) or the reverse; reorder statements that are independent of each other; replace `len(x) == 0` / `x == []` by `not x` when x is provably a list; `d[k] if k in d else v` by `d.get(k, v)` when equivalent; `.format` by f-string; split a long condition into named booleans; add or remove log/debug lines, comments, docstrings, type hints; replace a chain of `elif` on constants by a dict dispatch when equivalent; use `enumerate`/`zip` instead of index arithmetic; hoist a loop-invariant computation out of a loop when that is provably safe; etc. Use a DIFFERENT kind of refactoring for each of the {n} changes, and touch different functions when possible. Do NOT just reformat whitespace.{taken_txt}
 Be careful: things like changing set/dict iteration order, the order of sent messages, evaluation order with side effects, float summation order, default-argument semantics, or sharing a mutable object that was copied before are NOT behaviour-preserving - avoid them, or keep them exactly as they are.
 
-For EACH change i (i in 1..{n}) deliver, in the directory {wt}/_seed/{pid}_n<i>/ :
+For EACH change i (i in {start}..{start + int(n) - 1}) deliver, in the directory {wt}/_seed/{pid}_n<i>/ :
   - patch.diff : `git diff` of ONLY that change against the clean HEAD (apply with `git apply`), touching only files under pydcop/.
   - meta.json : {{"property": "{pid}", "kind": "neutral", "summary": "<one sentence: what was refactored and how>", "file": "<path>", "function": "<qualified function(s)>", "why_equivalent": "<short argument why behaviour is unchanged>"}}
   - optionally check.py : a small differential script (run as `cd <tree> && PYTHONPATH=<tree> /venv/bin/python _seed/{pid}_n<i>/check.py`) that exercises the touched function(s) on a few inputs and prints a digest of the results, so that the clean and the patched tree can be compared; it must print the same digest on both trees.
